@@ -145,6 +145,12 @@ def class_source(name, base, sig, leaf):
 
 def build_class(ns, name, kind, sig, svc):
     base = {"ctrl": "CtrlBase", "deco": "DecoBase", "leaf": "LeafBase"}[kind]
+    if svc and sig.get("redeclared") and kind != "leaf" and not sig.get("via_new") and not sig.get("implicit_target"):
+        # the class refines a service class (declared for another flavour, constructed from the target alone) and is declared a
+        # service again with a constructor of its own
+        other = [f for f in sorted(FLAVOURS) if f != svc][0]
+        ns[name + "Base"] = service(flavour=FLAVOURS[other])(type(name + "Base", (ns[base],), {"run": lambda self: None}))
+        base = name + "Base"
     exec(class_source(name, base, sig, kind == "leaf"), ns)
     cls = ns[name]
     if svc:
@@ -178,7 +184,8 @@ def signature(draw, leaf):
     if not leaf and draw(st.integers(0, 7)) == 0:
         return {"po": [], "pk": [], "va": True, "ko": [], "vk": True, "implicit_target": True}
     return {"po": po, "pk": pk, "va": draw(st.booleans()) and draw(st.booleans()), "ko": ko,
-            "vk": draw(st.booleans()) and draw(st.booleans()), "via_new": not reserved_names and draw(st.integers(0, 5)) == 0}
+            "vk": draw(st.booleans()) and draw(st.booleans()), "via_new": not reserved_names and draw(st.integers(0, 5)) == 0,
+            "redeclared": draw(st.integers(0, 3)) == 0}
 
 
 _val = itertools.count(100)
